@@ -95,7 +95,7 @@ func (s Spec) Config() config.Config {
 // globals (new process) and restarts the UUID stream. Call at the start of every history/execution.
 func FreshWorld() {
 	vrt.WipeDir(Base())
-	badger.ResetVolumes()
+	badger.ResetVolumesExcept("/__snapshots__/")
 	disk.Reset()
 	vrt.ResetGlobals()
 	uuid.SetRand(&vrt.DetRand{})
@@ -223,4 +223,76 @@ func ShortErr(err error) string {
 		s = s[:120]
 	}
 	return strings.ReplaceAll(s, Base(), "$B")
+}
+
+// ------------------------------------------------------------------ snapshots of the persistent state
+
+// Snapshot is a copy of everything persistent below Base(): directory tree and in-memory KV volumes.
+type Snapshot struct {
+	dirs  []string          // relative directory paths
+	files map[string][]byte // relative file path -> content
+	vols  map[string]string // volume path -> private clone path
+	uuidN uint64
+}
+
+var snapSeq int
+
+// TakeSnapshot copies the persistent state (call with every database closed).
+func TakeSnapshot(volumePaths []string, uuidN uint64) (*Snapshot, error) {
+	s := &Snapshot{files: map[string][]byte{}, vols: map[string]string{}, uuidN: uuidN}
+	b := Base()
+	err := filepath.Walk(b, func(p string, info os.FileInfo, err error) error {
+		if err != nil {
+			return err
+		}
+		rel, _ := filepath.Rel(b, p)
+		if rel == "." {
+			return nil
+		}
+		if info.IsDir() {
+			s.dirs = append(s.dirs, rel)
+			return nil
+		}
+		c, err := os.ReadFile(p)
+		if err != nil {
+			return err
+		}
+		s.files[rel] = c
+		return nil
+	})
+	if err != nil {
+		return nil, err
+	}
+	for _, vp := range volumePaths {
+		snapSeq++
+		clone := fmt.Sprintf("/__snapshots__/%d", snapSeq)
+		badger.CloneVolumeAt(vp, ^uint64(0), clone)
+		s.vols[vp] = clone
+	}
+	return s, nil
+}
+
+// Restore makes the world equal to the snapshot (new process: globals reset, volumes unlocked).
+func (s *Snapshot) Restore() error {
+	b := Base()
+	if err := vrt.WipeDir(b); err != nil {
+		return err
+	}
+	for _, d := range s.dirs {
+		if err := os.MkdirAll(filepath.Join(b, d), 0o750); err != nil {
+			return err
+		}
+	}
+	for rel, c := range s.files {
+		if err := os.WriteFile(filepath.Join(b, rel), c, 0o640); err != nil {
+			return err
+		}
+	}
+	for vp, clone := range s.vols {
+		badger.CloneVolumeAt(clone, ^uint64(0), vp)
+	}
+	disk.Reset()
+	vrt.ResetGlobals()
+	uuid.SetRand(&vrt.DetRand{N: s.uuidN})
+	return nil
 }
